@@ -100,7 +100,7 @@ def main():
          "hooks": {"guard": "inkayaku_verif",
                    "enable": "RUSTFLAGS='--cfg inkayaku_verif' (set in /verif/harness/.cargo/config.toml; the harness crates path-depend on /repo's crates)",
                    "baseline_off_cmd": "cd /repo && cargo nextest run --workspace --no-fail-fast --tool-config-file pb:/w/lib/nextest.toml --profile pb --test-threads 8 --offline",
-                   "source_commits": ["d03e098", "9aafa85", "0c1f8fe", "6a9543e"], "add_only": True},
+                   "source_commits": ["d03e098", "9aafa85", "0c1f8fe", "6a9543e", "cc3fffa"], "add_only": True},
          "engines": [{"name": "lean4-proof+correspondence", "path": "/verif/bin/check", "serves_properties": [c["property_id"] for c in checks],
                       "kind_free_text": "Lean 4 theorems about executable models (lake build, axiom audit) + line-protocol differential testing of model, executable Spec and the real Rust code"}],
          "checks": checks,
